@@ -29,6 +29,7 @@ class Ctx:
         self.driver = None
         self.notes = {}
         self.boost = False
+        self.quick_k = QUICK_K
         self.tmp = os.path.join(nvlib.BUILD, "tmp", "%s_%d" % (prop, os.getpid()))
 
     def quick(self):
@@ -43,7 +44,7 @@ class Ctx:
                 return type(t)(t * THOROUGH_K)
             return t
         if isinstance(q, (int, float)) and isinstance(t, (int, float)) and t > q:
-            k = QUICK_K * (3 if self.boost else 1)
+            k = self.quick_k * (3 if self.boost else 1)
             return type(q)(min(t * THOROUGH_K, k * q))
         return q
 
@@ -84,6 +85,7 @@ def main():
     mod = importlib.import_module("props." + prop)
     seed = nvlib.seed_from_env()
     ctx = Ctx(prop, a.tier, seed)
+    ctx.quick_k = int(os.environ.get("NV_QUICK_SCALE", getattr(mod, "QUICK_K", QUICK_K)))   # a module sized for minutes sets QUICK_K = 1
     t0 = time.time()
     broken = []      # broken obligations (proof / audit / correspondence)
     info = {"phases": {}}
